@@ -218,6 +218,87 @@ func allocRoot(v ssa.Value) *ssa.Alloc {
 	return nil
 }
 
+// loopSharedObjects: the second form of the same defect. `shares[i].f = acc.Mul(acc, x)` inside a loop stores
+// the pointer acc itself (math/big methods return their receiver) into every element, and each iteration
+// overwrites the one big.Int all of them point to.
+func checkLoopSharedResult(c *Ctx, p *Program, rule string, fs []*ssa.Function) (int, int) {
+	e := &originEngine{p: p, memo: map[*ssa.Function]int{}, busy: map[*ssa.Function]bool{}}
+	nstores, nbad := 0, 0
+	for _, f := range fs {
+		hdrs := loopHeadersOf(f)
+		if len(hdrs) == 0 {
+			continue
+		}
+		inLoop := func(b *ssa.BasicBlock, h int) bool {
+			if b == nil {
+				return false
+			}
+			if b.Index == h {
+				return true
+			}
+			for _, x := range hdrs[b.Index] {
+				if x == h {
+					return true
+				}
+			}
+			return false
+		}
+		for _, b := range f.Blocks {
+			if len(hdrs[b.Index]) == 0 {
+				continue
+			}
+			for _, in := range b.Instrs {
+				st, ok := in.(*ssa.Store)
+				if !ok {
+					continue
+				}
+				cl, ok := st.Val.(*ssa.Call)
+				if !ok || !pointerLike(cl.Type()) {
+					continue
+				}
+				o := e.origin(cl, 0)
+				if o == ssa.Value(cl) {
+					continue // the call creates (or may create) its result
+				}
+				oi, ok := o.(ssa.Instruction)
+				if !ok {
+					continue // a parameter: the caller's object, not a loop accumulator
+				}
+				// the destination varies with the iteration
+				varies := false
+				for a := st.Addr; a != nil; {
+					switch x := a.(type) {
+					case *ssa.FieldAddr:
+						a = x.X
+						continue
+					case *ssa.IndexAddr:
+						if _, isConst := x.Index.(*ssa.Const); !isConst {
+							varies = true
+						}
+						a = x.X
+						continue
+					}
+					break
+				}
+				if !varies {
+					continue
+				}
+				nstores++
+				for _, h := range hdrs[b.Index] {
+					if inLoop(oi.Block(), h) {
+						continue // created in this iteration
+					}
+					nbad++
+					c.bad(rule, fmt.Sprintf("%s: the pointers stored per iteration point to distinct objects", fname(f)),
+						fmt.Sprintf("the result of %s stored at %s is its destination argument %s, one object created outside the loop: every element ends up pointing to it and each iteration overwrites it", shortCallee(p.staticCalleeName(&cl.Call)), p.pos(st.Pos()), descVal(o)), p.pos(st.Pos()))
+					break
+				}
+			}
+		}
+	}
+	return nstores, nbad
+}
+
 func checkLoopAlias(c *Ctx, p *Program, prop string, prefixes []string) {
 	var fs []*ssa.Function
 	for f := range p.AllFuncs {
@@ -320,6 +401,9 @@ func checkLoopAlias(c *Ctx, p *Program, prop string, prefixes []string) {
 			}
 		}
 	}
+	n2, b2 := checkLoopSharedResult(c, p, rule, fs)
+	nstores += n2
+	nbad += b2
 	c.count("loop_pointer_stores", nstores)
 	if nbad == 0 {
 		c.ok(rule, "pointers collected in loops point to distinct objects", fmt.Sprintf("%d stores of a local variable's address into an indexed element inside a loop inspected", nstores), "")
